@@ -31,7 +31,8 @@ CHECKS = {
              "(Trace_ThreadProxy: executed once, on the owner's thread, only after being invoked; each coroutine caller gets exactly its "
              "own call's value or exception; plain calls return nothing; dropped and refused calls never run; nothing blocks). The loop on which "
              "the proxy attribute was looked up is a free parameter of the model (it has no influence): bound wrappers fetched on one loop and "
-             "invoked from the other are part of every scenario family.",
+             "invoked from the other are part of every scenario family."
+             " Owner-loop states: running, open but not started yet (the calls are queued and run once it starts), closed; owner either a plain thread or bellows' EventLoopThread (start / force_stop with calls in flight).",
         design_ref="3/C20",
         note="Real OS threads: schedules are sampled, not enumerated; the verdict depends only on per-thread order, never on wall-clock "
              "order across threads (generous wall-clock limits only detect blocking). A stopped-but-not-closed loop is outside the property.",
@@ -48,7 +49,8 @@ CHECKS = {
              "startScan and ControllerApplication._ensure_network_running (versions 8, 4, 14 quick / 4..14 thorough) in virtual time with "
              "the harness as NCP, each ended by timeout, cancellation or a further event (scans: cancellation / command timeout after every "
              "prefix of every event order, then late frames and a further scan), plus repeated operations; TLC validates outcome, "
-             "exact timeout instant, scan results and that listener / callback bookkeeping is back to its prior size after every operation.",
+             "exact timeout instant, scan results and that listener / callback bookkeeping is back to its prior size after every operation."
+             " Every refusal status of the command's status family is used in turn for scan / form / leave, followed by another operation's events.",
         design_ref="3/C17",
         note="Trusted: compat shim (bring-up), fake gateway + NcpEzsp encoder, virtual time. Residue is read from EZSP._stack_status_listeners "
              "and EZSP._callbacks (the bookkeeping the property names). A scan has no timeout of its own in the code and none is claimed.",
@@ -62,7 +64,8 @@ CHECKS = {
              "orders are pinned. IncomingMC checks totality over all 256 type / status / decision bytes. For every version 4..14 the "
              "harness's own byte-level encoder builds the callback frames (120 quick / 1500 thorough incoming messages incl. all message "
              "types, payload lengths 0..100, RSSI extremes; all status x decision combinations) in the version's field order and header "
-             "layout and feeds them through EZSP.frame_received into the real ControllerApplication; TLC judges what zigpy received.",
+             "layout and feeds them through EZSP.frame_received into the real ControllerApplication; TLC judges what zigpy received."
+             " Defined message types make up half of the generated callbacks; earlier callbacks are repeated (identical, or sharing sender and APS sequence) between other traffic: every callback yields its own packet.",
         design_ref="3/C13",
         note="Input-quantified mapping; the TLA+ text is the independent reference and TLC the evaluator. Trusted: compat shim, the "
              "harness's encoder (frame IDs, field orders and enum codes pinned from the EZSP reference), instance-level wrappers of "
@@ -117,7 +120,8 @@ CHECKS = {
              "uart.connect, Gateway and AshProtocol on a fake serial line, simulated ASH NCP carrying a simulated EZSP NCP) is run for 14 "
              "NCP versions x serial / socket:// paths x start-up reset absent / in the wait window / late / with the host's RST still "
              "unread x line-fault schedules x NCP windows 1..3 through startup_reset, write_config, a second reset, version and a "
-             "command; TLC validates the frames seen by the NCP's EZSP layer and every stage outcome (Trace_Bringup).",
+             "command; TLC validates the frames seen by the NCP's EZSP layer and every stage outcome (Trace_Bringup)."
+             " Besides raw commands, composite operations of the version's protocol handler (read_counters, read_and_clear_counters) are issued after bring-up and again after a later reset + negotiation (every frame for that version, also through previously used entry points).",
         design_ref="3/C09",
         note="Trusted: simulated ASH NCP (validated against AshNcp.tla in C01) and EZSP NCP; faults hit DATA/ACK/NAK only (bellows does not "
              "retransmit RST). One defect fixed (KeyError for version >= 15); one known finding listed in known_findings.json (start-up "
@@ -187,7 +191,8 @@ CHECKS = {
              "per configuration, cancellation included), and runs of the real full stack (EZSP / uart.connect / Gateway / AshProtocol "
              "on a fake serial line, versions 4..14, per-frame faults in both directions, back-to-back reads, timers, callbacks, "
              "cancellations, silent NCP, re-negotiation) must be behaviours of the composed model (Trace_Stack; a binding self-test "
-             "corrupts recorded fields and requires rejection).",
+             "corrupts recorded fields and requires rejection)."
+             " Sequence-number reuse: a call times out, 255 further commands complete, the next call goes out under the same number and its reply arrives late but within its own timeout (12 timings). A loop timer that fires with nothing observable and no model timeout due is stuttering.",
         design_ref="3/C06",
         note="Trusted: fake gateway, virtual-time loop, zigpy's priority semaphore is part of the implementation under test. Per handler "
              "lifetime (a version switch or reset replaces the handler; that is C09). Latitude: a reply hitting a stale registration may be "
@@ -202,7 +207,8 @@ CHECKS = {
              "(5 representative settings x reported value x override) and that mis-ordered / shrinking writes violate the right clause. "
              "The real EZSP.write_config runs for every version 4..14 against the simulated NCP with generated reported values, "
              "override sets drawn from the version's whole schema, disabled settings and 20% rejected settings (60 quick / 1500 "
-             "thorough per version + corner cases); TLC evaluates the contract on each recorded run (Trace_ConfigWrite).",
+             "thorough per version + corner cases); TLC evaluates the contract on each recorded run (Trace_ConfigWrite)."
+             " Every setting of every version's schema is disabled once and overridden once with the smallest and the largest accepted candidate.",
         design_ref="3/C16",
         note="Trusted: simulated EZSP NCP (configuration store). Bellows' default table is read from the tree as configuration; "
              "capacity settings are pinned in the spec. Found and fixed three defects (known_findings.json: fixed).",
@@ -227,7 +233,8 @@ CHECKS = {
              "length 7 (quick) / 9 (thorough) for both version classes, sequences across the counter-clear boundary (after 177..181 "
              "successful feeds, incl. a failing free-buffer read) and sequences through zigpy's watchdog loop are executed on the real "
              "ControllerApplication._watchdog_feed (real EZSP, simulated NCP, virtual time) and validated by TLC against Trace_Watchdog "
-             "(raise/return, exception class, keep-alive command seen by the NCP, connection_lost iff raised).",
+             "(raise/return, exception class, keep-alive command seen by the NCP, connection_lost iff raised)."
+             " Restart-length failure runs are started 7..0 feeds before the first and the second periodic read-and-clear feed.",
         design_ref="3/C19",
         note="Trusted: zigpy.util.Requests shim (compat.py), simulated EZSP NCP, virtual-time loop. MAX_WATCHDOG_FAILURES and the clear period "
              "are read from the tree as configuration.",
@@ -256,7 +263,8 @@ CHECKS = {
              "AshProtocol.data_received is fed every stream of up to 4 (quick) / 5 (thorough) symbols over 9 reserved-rich bytes + 3 "
              "whole valid frames under all 2^(n-1) chunkings, random mutated concatenations of valid frames (flipped, deleted, "
              "inserted, over-stuffed bytes) under random chunkings, and 8/64 MB of flag-free garbage under tracemalloc; TLC validates "
-             "every recorded trace against Trace_AshRx (same upward calls, same ACK/NAK numbers, nothing raised, memory inequality).",
+             "every recorded trace against Trace_AshRx (same upward calls, same ACK/NAK numbers, nothing raised, memory inequality)."
+             " Length checks: a DATA candidate whose data field lies outside the ASH text's 3..128 bytes is discarded or handled whole (both are behaviours of the reference decoder; bellows handles up to 256 bytes) - valid-CRC frames of 0..900 data bytes are part of the enumerated streams, so a truncated hand-over is rejected.",
         design_ref="3/C02",
         note="Trusted: tracemalloc measurement for the memory clause (TLC only decides the inequality); reads + residue stay below the "
              "receive-buffer bound as the property's quantifier says. Surplus data in ACK/NAK and DATA lengths outside 3..128 are accepted (latitude).",
@@ -310,7 +318,8 @@ CHECKS = {
              "dumped state graph is executed on the real Multicast object and every execution (plus seeded "
              "random histories beyond the bounds, and the same initial tables programmed with other non-zero "
              "endpoints: 2, 255, mixed) is validated by TLC against Trace_Multicast with the observed "
-             "status, table write, NCP table and behaviourally probed host view bound at each step.",
+             "status, table write, NCP table and behaviourally probed host view bound at each step."
+             " Initial tables also carry free entries with left-over group ids (what unsubscribe leaves behind), including the id of a group that is live at another index, and histories contain restarts (a second start-up scan over the table the host itself produced).",
         design_ref="3/C15",
         note="Trusted: command-level simulated NCP (does not apply rejected/timed-out writes), deep-copy "
              "behavioural probes of the host view, TLC.",
